@@ -59,6 +59,7 @@ type Engine struct {
 	solver *Solver
 	cfg    Config
 	id     int
+	fnInfo map[*ssa.Function]*fnInfo
 }
 
 type Run struct {
@@ -572,7 +573,7 @@ func Explore(P *Program, cfg Config, harness string) *Summary {
 				return
 			}
 			defer solver.Close()
-			e := &Engine{P: P, tt: tt, solver: solver, cfg: cfg, id: w}
+			e := &Engine{P: P, tt: tt, solver: solver, cfg: cfg, id: w, fnInfo: map[*ssa.Function]*fnInfo{}}
 			for {
 				mu.Lock()
 				for len(stack) == 0 && busy > 0 {
